@@ -353,10 +353,10 @@ TOL_TARGET = 1e-5  # translations are limited so that the per-iteration toleranc
 
 def fit_budget(g, X, numax=1.0):
     """Translations are shrunk (by factors of 10) until the image data keep enough significant bits of their own spread:
-    C_ITER*eps*K(g(X))*max(1, nu_max) <= TOL_TARGET (or K(g(X)) <= 4 K(X) when X itself is worse than that).
+    TOL_SHAPE(K(g(X)), nu_max) <= TOL_TARGET (or K(g(X)) <= 4 K(X) when X itself is worse than that).
     Returns the map actually used and K of the pair."""
     KA = condition(X)[0]
-    kmax = TOL_TARGET / (C_ITER * EPS * max(1.0, numax))
+    kmax = (TOL_TARGET - TOL_SHAPE[0]) / (TOL_SHAPE[1] * EPS * max(1.0, numax))
     KB = KA
     for _ in range(14):
         KB = condition(apply_map(g, X))[0]
@@ -451,8 +451,13 @@ def well_posed(X, res):
 # ----------------------------------------------------------------------------------------------------------------
 # projection: observed runs -> StudentPair.tla items
 # ----------------------------------------------------------------------------------------------------------------
-C_INIT = 64.0  # acceptance for the initial estimates, units of eps*K (worst observed 1.9, see evidence)
-C_ITER = 2.0e4  # acceptance for per-iteration quantities, units of eps*K*max(1, nu_max) (worst observed ~7e2)
+C_INIT = 64.0  # acceptance for the initial estimates, units of eps*K (worst observed 1.9)
+# acceptance for per-iteration quantities:  floor + C * eps * K * max(1, nu_max).  The floor is the absolute termination
+# tolerance of the root search (scipy bisect xtol = 2e-12) as the iteration propagates it (observed <= 1.7e-10 on delta, <= 1.7e-11
+# on Sigma); the slope is the rounding of the data representation (observed <= 1e3 on delta / mu, <= 1e2 on nu / Sigma).
+TOL_SHAPE = (1e-8, 3.0e4)  # delta, mu
+TOL_SCAT = (1e-9, 3.0e3)  # nu, Sigma
+C_ITER = TOL_SHAPE[1]
 
 
 def _finite_nus(run):
@@ -525,8 +530,9 @@ def pair_tolerances(g, X, Y, A, B):
     numax = max([1.0] + _finite_nus(A) + _finite_nus(B))
     exact = bool(X.shape[1] == 1 and g["dyadic"] and not np.any(g["t"]))
     if exact:
-        return {"K": K, "numax": numax, "exact": True, "init": 0.0, "iter": 0.0}
-    return {"K": K, "numax": numax, "exact": False, "init": C_INIT * EPS * K, "iter": C_ITER * EPS * K * numax}
+        return {"K": K, "numax": numax, "exact": True, "init": 0.0, "shape": 0.0, "scat": 0.0}
+    u = EPS * K * numax
+    return {"K": K, "numax": numax, "exact": False, "init": C_INIT * EPS * K, "shape": TOL_SHAPE[0] + TOL_SHAPE[1] * u, "scat": TOL_SCAT[0] + TOL_SCAT[1] * u}
 
 
 def project_pair(g, X, Y, A, B):
@@ -555,17 +561,17 @@ def project_pair(g, X, Y, A, B):
             nu = it["nu"]
             band = 0.0
             if nu is not None and math.isfinite(nu):
-                band = 2.0 * tol["iter"] * abs(nu) * max(1.0, abs(nu)) + 1e-9 * TOL_NU
+                band = 2.0 * tol["scat"] * abs(nu) * max(1.0, abs(nu)) + 1e-9 * TOL_NU
             rec = {"delta": 0, "nu": 0, "sig": 0, "mu": 0, "br": it["branch"], "ex": c["ex"], "blind": c["blind"], "dec": it["decision"],
                    "dok": c["dok"], "rok": c["rok"], "sok": c["sok"], "mok": c["mok"], "tst": c["tst"], "over": c["over"],
                    "tieb": c["tieb"], "tiec": bool(c["test"] is not None and abs(c["test"] - TOL_NU) <= band)}
             if is_b and k < len(A["its"]):
                 a = A["its"][k]
-                rec["delta"] = tag(err_delta(a["delta"], it["delta"]), tol["iter"], "delta")
+                rec["delta"] = tag(err_delta(a["delta"], it["delta"]), tol["shape"], "delta")
                 if a["branch"] == it["branch"]:
-                    rec["nu"] = tag(err_nu(a["nu"], nu), tol["iter"], "nu")
-                    rec["sig"] = tag(err_sigma(g, a["Sigma_out"], it["Sigma_out"]), tol["iter"], "S")
-                    rec["mu"] = tag(err_mu(g, a["mu_out"], it["mu_out"], it["Sigma_out"]), tol["iter"], "mu")
+                    rec["nu"] = tag(err_nu(a["nu"], nu), tol["scat"], "nu")
+                    rec["sig"] = tag(err_sigma(g, a["Sigma_out"], it["Sigma_out"]), tol["scat"], "S")
+                    rec["mu"] = tag(err_mu(g, a["mu_out"], it["mu_out"], it["Sigma_out"]), tol["shape"], "mu")
             out.append(rec)
         return out
 
@@ -580,9 +586,9 @@ def project_pair(g, X, Y, A, B):
         if is_b:
             ra = A["res"]
             if ra["raised"] is None and res["raised"] is None:
-                rec["mu"] = 0 if err_mu(g, ra["mu"], res["mu"], res["Sigma"]) <= tol["iter"] else 1
-                rec["sig"] = 0 if err_sigma(g, ra["Sigma"], res["Sigma"]) <= tol["iter"] else 1
-                rec["nu"] = 0 if err_nu(ra["nu"], res["nu"]) <= tol["iter"] else 1
+                rec["mu"] = 0 if err_mu(g, ra["mu"], res["mu"], res["Sigma"]) <= tol["shape"] else 1
+                rec["sig"] = 0 if err_sigma(g, ra["Sigma"], res["Sigma"]) <= tol["scat"] else 1
+                rec["nu"] = 0 if err_nu(ra["nu"], res["nu"]) <= tol["scat"] else 1
             elif (ra["raised"] is None) != (res["raised"] is None):
                 rec["mu"] = rec["sig"] = rec["nu"] = 1
         return rec
